@@ -327,6 +327,17 @@ def decide_core(ck, key, recs, what, stage_names=("K5",), shrink_key=None, max_r
                 known_inst += 1
             else:
                 viol.append(r)
+    # a failure inside a known class is still a NEW violation when the model's output (the behaviour the theorems
+    # and the known-finding list were established on) satisfies the property for that very input
+    cand = [r for r in recs if r.get("model_out") is not None and r["o"].get(key) == "0"
+            and r["o"].get("in_err") == "0" and shrink.in_known_class(r["o"], key) and not (r["tab"] == 0 and key not in ("c05", "c11"))]
+    if cand:
+        outs = pipe([TYV, "oraclefor"], ["%d %d %d %s %s" % (r["w"], r["tab"], r["reorder"], hexs(r["src"]), hexs(r["model_out"])) for r in cand], timeout=3600)
+        for r, o in zip(cand, outs):
+            if parse_fields(o).get(key) == "1":
+                viol.append(r)
+                known_inst -= 1
+                r["new_in_known_class"] = True
     ck.extra["wellformed_cases"] = wf
     ck.extra["known_class_instances"] = known_inst
     ck.extra["oracle_failures_outside_known_classes"] = len(viol)
@@ -343,7 +354,7 @@ def decide_core(ck, key, recs, what, stage_names=("K5",), shrink_key=None, max_r
     for r in viol:
         if len(ck.violations) >= max_report:
             break
-        small = shrink.shrink(r["w"], r["tab"], r["reorder"], r["src"], shrink_key)
+        small = r["src"] if r.get("new_in_known_class") else shrink.shrink(r["w"], r["tab"], r["reorder"], r["src"], shrink_key)
         if small in seen:
             continue
         seen.add(small)
